@@ -539,7 +539,39 @@ def rule_si_dimensions(chk, prog):
   chk.at_least(rule, 7)
 
 
+def rule_identity(chk, prog):
+  """Grids and coordinate objects are static arguments of jitted functions and keys of caches: what compares equal shares compiled constants.
+  Every field the numerics read (radius above all: it is what differs between two scales) must take part in equality."""
+  from sa import identity
+  rule = 'C12.9-identity-of-configuration-objects-covers-every-field'
+  n = 0
+  for q, c in sorted(prog.classes.items()):
+    if not c.is_dataclass() or c.module.name.endswith('_test') or not c.fields:
+      continue
+    short = q.replace('dinosaur.', '')
+    ex = [(f, ln, how) for f, ln, how in identity.excluded_fields(c) if identity.field_is_read(prog, c, f)]
+    for f, ln, how in ex:
+      chk.violation(rule, f'{short}.{f}: excluded from equality ({how})', f'two {c.name} objects that differ only in `{f}` compare equal: jit caches keyed by the object (static arguments), functools caches and '
+                    'pytree aux data hand the second one the constants traced for the first — e.g. the grid radius of another scale', (c.file, ln), 'every field read by the numerics takes part in ==', how)
+    if not ex:
+      chk.ok(rule, f'{short}: every field takes part in equality / hash ({"custom __eq__" if "__eq__" in c.methods else "generated"})', ', '.join(f for f, _, _ in c.fields)[:120], (c.file, c.lineno))
+    n += 1
+  import os
+  from sa import model as _model
+  fx = _model.Program(os.path.join(os.path.dirname(os.path.dirname(os.path.abspath(__file__))), 'fixtures', 'identity_fixture'))
+  got = {c_.name: sorted(f for f, _, _ in identity.excluded_fields(c_) if identity.field_is_read(fx, c_, f)) for c_ in fx.classes.values()}
+  want = {'Complete': [], 'DropsRadius': ['radius'], 'CustomEqMissesOffset': ['offset'], 'ByIdentity': []}
+  if got != want:
+    raise AnalysisError(f'positive fixture for {rule} no longer matches ({got}): the scan is blind or over-eager')
+  chk.ok(rule, 'positive fixture fixtures/identity_fixture: compare=False and a custom __eq__ that skips a field are reported; complete and identity-compared classes are not', str(got))
+  chk.at_least(rule, 10)
+  # the count of DFI steps (a quotient of two model times) must not flip with rounding noise between scales
+  from rules import c14 as _c14
+  _c14.rule_dfi_weights(chk, prog, count_rule='C12.8-counts-from-model-times-are-rounded')
+
+
 def run(chk, prog, tier):
+  rule_identity(chk, prog)
   rule_si_dimensions(chk, prog)
   rule_default_scale(chk, prog)
   rule_quantity_typestate(chk, prog)
